@@ -355,6 +355,11 @@ func PersistReload(cfg fw.Config, rec *fw.Rec, idx int, prefix string) {
 	if len(h) < 4 {
 		return
 	}
+	// every history also has a machine whose spec relies on a spec-level option
+	// (actionErrorBranches), deployed and used before the restarts and used after them
+	gspec := fmt.Sprintf("guarded-%d-0", idx)
+	h = append([]op{{Kind: "create", Via: "captain", Mid: "gm", Spec: gspec}, {Kind: "msg", Via: "captain", Mid: "gm", Uid: "g1"}, {Kind: "msg", Via: "captain", Mid: "gm", Uid: "g2"}}, h...)
+	h = append(h, op{Kind: "msg", Via: "captain", Mid: "gm", Uid: "g3"}, op{Kind: "msg", Via: "captain", Mid: "gm", Uid: "g4"}, op{Kind: "msg", Via: "captain", Mid: "gm", Uid: "g5"})
 	var lines []string
 	for _, o := range h {
 		lines = append(lines, mustJSON(o.message()))
@@ -367,7 +372,7 @@ func PersistReload(cfg fw.Config, rec *fw.Rec, idx int, prefix string) {
 	if !ok {
 		return
 	}
-	k := 1 + r.Intn(len(lines)-1)
+	k := 3 + r.Intn(len(lines)-6)
 	_, _, file1, ok := runStdio(rec, replay, dir, "P1", "", lines[:k])
 	if !ok {
 		return
